@@ -36,7 +36,7 @@ def tla_set(xs):
     return "{" + ", ".join(('"%s"' % x) if isinstance(x, str) else str(x) for x in xs) + "}"
 
 
-SITS = ("alloc", "vreclaim", "vpreempt", "vconsol", "reclaimer", "preemptor")
+SITS = ("alloc", "vreclaim", "vpreempt", "vconsol", "reclaimer", "preemptor", "stale")
 
 
 def consts(nq, prune=False, families=("Q0",), canonical=True, only_terminating=False, minset=(-1, 0, 1, 5), sits=SITS):
@@ -212,6 +212,10 @@ def account(ctx, trace):
             if e["hang"]:
                 pred["predicted_hang_run"] += 1
             continue
+        if e["ev"] == "Panic" and "channel full" in e.get("msg", ""):
+            # the fake API server's buffered watch channel overflowed twice in a row (the harness retries once): an
+            # artefact of the fake, nothing the scheduler did - no verdict from this run
+            raise vlib.Infra("scenario %s: the fake API server's watch channel overflowed in two attempts (%s)" % (cur["id"], e["msg"]))
         if e["ev"] in outcomes:
             outcomes[e["ev"]] += 1
             if cur["hang"]:
